@@ -1,7 +1,98 @@
-(** * C01 — fixture resolution follows pytest's shadowing order (statements only). *)
-From PLS Require Import Check.C01.
+(** * C01 — fixture resolution follows pytest's shadowing order.
+    Statements only: each theorem is closed by [exact] of a lemma proved in Proofs/,
+    pinned with [Check], and followed by [Print Assumptions]. *)
+From PLS Require Import Check.C01 Proofs.Basics Proofs.Cascade.
 
-(* placeholder until Proofs/Cascade.v lands *)
-Theorem C01_placeholder : forall s F n, closest [] [] s F n = closest_with [] [] s (fun _ => true) F n.
-Proof. reflexivity. Qed.
-Print Assumptions C01_placeholder.
+(** Full-strength statement (FALSE of the faithful model, see [C01_refuted_import_provenance]):
+      forall dk roots s F n, F <> [] -> allowed dk roots s F n (closest dk roots s F n) = true.
+    Proved: the same statement outside the known-finding class [K_import_provenance]
+    and under [imports_complete] (the soundness half of the import closure, C14). *)
+Theorem C01_resolve_sound_partial :
+  forall dk roots s n F,
+    F <> [] ->
+    (forall dir, In dir (ancestors (tl F)) -> imports_complete dk roots s n dir) ->
+    K_import_provenance dk roots s None F n = false ->
+    allowed dk roots s F n (closest dk roots s F n) = true.
+Proof. exact closest_allowed. Qed.
+Print Assumptions C01_resolve_sound_partial.
+
+(** a definition that is not visible from the using file is never returned *)
+Theorem C01_never_invisible_partial :
+  forall dk roots s n F d,
+    F <> [] ->
+    (forall dir, In dir (ancestors (tl F)) -> imports_complete dk roots s n dir) ->
+    K_import_provenance dk roots s None F n = false ->
+    closest dk roots s F n = Some d ->
+    visible dk roots s F n d = true /\ In d (defs_named s n).
+Proof. exact closest_visible. Qed.
+Print Assumptions C01_never_invisible_partial.
+
+(** the answer is empty only if no provider class contains a definition *)
+Theorem C01_resolve_none_only_if_invisible_partial :
+  forall dk roots s n F d,
+    F <> [] ->
+    (forall dir, In dir (ancestors (tl F)) -> imports_complete dk roots s n dir) ->
+    K_import_provenance dk roots s None F n = false ->
+    closest dk roots s F n = None -> In d (defs_named s n) ->
+    existsb (fun C => C d) (providers dk roots s F n) = false.
+Proof. exact closest_none_invisible. Qed.
+Print Assumptions C01_resolve_none_only_if_invisible_partial.
+
+(** ** witnesses: reachable states built by the model's own [analyze] *)
+Definition fx (name : string) (line : N) : item :=
+  IDef (mk_ldef name line (line + 1) 4 (4 + N.of_nat (String.length name)) None None [] 0 None false).
+
+Definition sib := ["test_sib.py"; "sibling"; "pkg"; "vwc"].
+Definition helpers := ["helpers.py"; "pkg"; "vwc"].
+Definition conf := ["conftest.py"; "pkg"; "vwc"].
+Definition user := ["test_use.py"; "sub"; "pkg"; "vwc"].
+
+Definition w_sib := mk_facts true 1 [] [] [fx "client" 4; IUse (mk_lusage "client" 7 11 17)] [].
+Definition w_helpers := mk_facts true 2 [] [] [fx "client" 4] [].
+Definition w_conf := mk_facts true 3 [] ["client"] [] [mk_edge 1 ["helpers"] (Names ["client"])].
+Definition w_user := mk_facts true 4 ["def test_u(client):"; "    pass"] [] [IUse (mk_lusage "client" 1 11 17)] [].
+
+(** the unrelated sibling module happens to be analysed first *)
+Definition bad_state : index :=
+  analyze true user w_user (analyze true conf w_conf (analyze true helpers w_helpers
+    (analyze true sib w_sib empty_index))).
+(** the imported module is analysed first *)
+Definition good_state : index :=
+  analyze true user w_user (analyze true conf w_conf (analyze true sib w_sib
+    (analyze true helpers w_helpers empty_index))).
+
+(** the full-strength statement is refuted: the sibling's fixture is returned *)
+Lemma C01_refuted_import_provenance :
+  exists s F n,
+    F <> [] /\ K_import_provenance [] [] s None F n = true /\
+    allowed [] [] s F n (closest [] [] s F n) = false /\
+    (exists d, closest [] [] s F n = Some d /\ visible [] [] s F n d = false).
+Proof.
+  exists bad_state, user, "client". split; [discriminate|].
+  split; [vm_compute; reflexivity|]. split; [vm_compute; reflexivity|].
+  eexists. split; vm_compute; reflexivity.
+Qed.
+
+(** non-vacuity: a state with an importing conftest meets every hypothesis of the
+    partial theorems, and resolution goes through the import branch *)
+Example C01_hypotheses_satisfiable :
+  user <> [] /\
+  (forall dir, In dir (ancestors (tl user)) -> imports_complete [] [] good_state "client" dir) /\
+  K_import_provenance [] [] good_state None user "client" = false /\
+  (exists d, closest [] [] good_state user "client" = Some d /\ d_file d = helpers).
+Proof.
+  split; [discriminate|]. split.
+  - intros dir Hd d Hin Hc.
+    cbn in Hd. repeat (destruct Hd as [<-|Hd]; [vm_compute in Hc |- *; try reflexivity; try discriminate|]);
+      try destruct Hd.
+    all: vm_compute in Hin; repeat (destruct Hin as [<-|Hin]; [vm_compute in Hc; try discriminate|]); try destruct Hin.
+  - split; [vm_compute; reflexivity|]. eexists; split; vm_compute; reflexivity.
+Qed.
+
+Check C01_resolve_sound_partial :
+  forall dk roots s n F, F <> [] ->
+    (forall dir, In dir (ancestors (tl F)) -> imports_complete dk roots s n dir) ->
+    K_import_provenance dk roots s None F n = false ->
+    allowed dk roots s F n (closest dk roots s F n) = true.
+Print Assumptions C01_refuted_import_provenance.
+Print Assumptions C01_hypotheses_satisfiable.
